@@ -18,7 +18,7 @@
    and the model predicts it exactly in both runs.  Opaque components emit
    something computed from the packets (FEC packets, dump lines, statistics,
    feedback, reports): the model predicts whether run B differs from run A. *)
-From IV Require Import Base.Word Base.Codes Model.Alias Proofs.AliasProofs.
+From IV Require Export Base.Word Base.Codes Model.Alias Proofs.AliasProofs.
 
 Definition c13_case := (comp * list (op Z) * list (list Z) * list (list Z) * list Z)%type.
 
